@@ -178,7 +178,9 @@ class Concretiser:
                                 2 ** 63 - 1, 2 ** 63, 2 ** 64 - 1, 2 ** 64 + 1, 10 ** 20 - 1])
                 abs_["declared"] = min(v, 2 ** 31 - 1)       # TLC integers are 32 bit: the abstraction only needs "above the limit"
                 # the oversize declaration alone, ahead of and behind other parameters
-                params = rng.choice([" SIZE=%d", " SIZE=%d", " SIZE=%d BODY=8BITMIME", " BODY=7BIT SIZE=%d", " SIZE=%d AUTH=<>", " AUTH=<> SIZE=%d BODY=8BITMIME"]) % v
+                params = rng.choice([" SIZE=%d", " SIZE=%d", " SIZE=%d BODY=8BITMIME", " BODY=7BIT SIZE=%d", " SIZE=%d AUTH=<>", " AUTH=<> SIZE=%d BODY=8BITMIME",
+                                     # a MAIL line longer than 512 octets (ESMTP parameters may make it so): the declaration comes last
+                                     " BODY=8BITMIME ENVID=" + "x" * 500 + " SIZE=%d"]) % v
             elif k == "sizeok":
                 abs_["declared"] = rng.choice([1, self.max_bytes // 2, self.max_bytes - 1, self.max_bytes])
                 params = rng.choice([" SIZE=%d BODY=8BITMIME", " SIZE=%d", " BODY=7BIT SIZE=%d"]) % abs_["declared"]
